@@ -56,7 +56,7 @@ def detect(patch, props=None):
     res = {}
     try:
         shutil.copytree("/repo/beyond", os.path.join(d, "beyond"))
-        if subprocess.run(["git", "apply", os.path.abspath(patch)], cwd=d, capture_output=True).returncode:
+        if subprocess.run(["git", "apply", "--include=beyond/*", os.path.abspath(patch)], cwd=d, capture_output=True).returncode:
             subprocess.check_call(["patch", "-p1", "-s", "--no-backup-if-mismatch", "-i", os.path.abspath(patch)], cwd=d)
         env = dict(os.environ, BVSTATIC_REPO=d, BVSTATIC_EVIDENCE=os.path.join(d, "_ev"))
 
